@@ -202,6 +202,9 @@ type stats struct {
 	nontriv   int64
 	opensOK   int64
 	opensExt  int64
+	derivs    int64
+	derivRO   int64
+	derivRW   int64
 	dirOpens  int64
 	reads     int64
 	resets    int64
@@ -249,6 +252,9 @@ func (e *explorer) merge(kind int, s *stats) {
 	t.nontriv += s.nontriv
 	t.opensOK += s.opensOK
 	t.opensExt += s.opensExt
+	t.derivs += s.derivs
+	t.derivRO += s.derivRO
+	t.derivRW += s.derivRW
 	t.dirOpens += s.dirOpens
 	t.reads += s.reads
 	t.resets += s.resets
@@ -277,7 +283,9 @@ type replayCase struct {
 	Mount string `json:"mount"`
 	Cross bool   `json:"cross,omitempty"` // a writable WithDirMount is mounted next to the immutable one
 	Prov  string `json:"provenance,omitempty"`
-	Base  bool   `json:"base_tree,omitempty"` // the small tree without the additional symlinks
+	Base  bool   `json:"base_tree,omitempty"`   // the small tree without the additional symlinks
+	Deriv []dop  `json:"derivation,omitempty"`  // kind "deriv": the FSConfig derivation
+	Idx   int    `json:"mount_index,omitempty"` // kind "deriv": index of the mount under test (preopen 3+index)
 	Word  []step `json:"word"`
 }
 
@@ -286,7 +294,7 @@ func (w *world) rcase(word []step) replayCase {
 	if w.prov != pDirect {
 		pn = provNames[w.prov]
 	}
-	return replayCase{kindNames[w.kind], w.cross, pn, !w.ext, append([]step{}, word...)}
+	return replayCase{kindNames[w.kind], w.cross, pn, !w.ext, w.deriv, w.derivIdx, append([]step{}, word...)}
 }
 
 // crossOps: operations with two descriptors, one on a WRITABLE mount ("rw": w.txt, wd/) and one on the
@@ -384,6 +392,9 @@ func (e *explorer) changed(w *world, st *stats, executed []step, cur string) {
 	for _, s := range executed {
 		names = append(names, s.String())
 	}
+	if w.kind == kDeriv {
+		detail = derivString(w.deriv) + fmt.Sprintf(", mount %d under test: ", w.derivIdx) + detail
+	}
 	what := fmt.Sprintf("mount=%s word=[%s]: step %d changed the host state: %s", kindNames[w.kind], strings.Join(names, " ; "), len(executed), detail)
 	if at != len(executed)-1 || eff2 != effect {
 		e.nonrepro.Add(1)
@@ -403,6 +414,9 @@ func (e *explorer) confirmations(sig string) int64 {
 
 // sigPrefix: mount kind, plus the configuration provenance when it is not the direct one.
 func (w *world) sigPrefix() string {
+	if w.kind == kDeriv {
+		return derivClass(derivModel(w.deriv), w.derivIdx)
+	}
 	if w.prov != pDirect {
 		return kindNames[w.kind] + "@" + provNames[w.prov]
 	}
@@ -665,7 +679,7 @@ func main() {
 	}
 
 	var shards []func()
-	for kind := 0; kind < nKinds; kind++ {
+	for kind := 0; kind < kDeriv; kind++ {
 		kind := kind
 		for _, p := range paths {
 			for lk := uint16(0); lk < 2; lk++ {
@@ -703,6 +717,12 @@ func main() {
 		must(err)
 		pprof.StartCPUProfile(f)
 		defer pprof.StopCPUProfile()
+	}
+	// configuration derivations (both tiers: all 6 174 derivations of <= 3 calls)
+	ds := allDerivations()
+	for i := 0; i < len(ds); i += 100 {
+		part := ds[i:min(i+100, len(ds))]
+		shards = append(shards, func() { e.derivShard(part) })
 	}
 	t0 := time.Now()
 	fw.Parallel(len(shards), runtime.NumCPU(), func(i int) { shards[i]() })
@@ -754,7 +774,8 @@ func main() {
 		Evaluations: steps, DistinctNontriv: nontriv,
 		Rule:    "one evaluation = one WASI call executed through the guest followed by a full snapshot comparison; a case is a (mount, word) tuple, every tuple is enumerated exactly once; non-trivial = the word's last step was not stopped by argument validation (errno other than EINVAL/EFAULT/EPERM/ENOTDIR)",
 		Samples: e.samples.List(), Exhaustive: true, Outcomes: outcomes, Bounds: bounds,
-		Extra: map[string]any{"words_per_provenance": provWords, "words": words, "successful_open_classes_extended_to_sequences": opensOK, "read_through_checks": reads, "per_mount": perKind},
+		Extra: map[string]any{"derivations": map[string]int64{"derivations": e.total[kDeriv].derivs, "readonly_mounts_attacked": e.total[kDeriv].derivRO, "writable_mounts_twin_checked": e.total[kDeriv].derivRW},
+			"words_per_provenance": provWords, "words": words, "successful_open_classes_extended_to_sequences": opensOK, "read_through_checks": reads, "per_mount": perKind},
 	}, []string{
 		"the host kernel is trusted for lstat/readdir/read used by the snapshot; atime is excluded (kernel updates it on reads) except for the poison value the guest tries to set",
 		"one guest thread; concurrency between guests on the same mount is not exercised",
@@ -777,10 +798,15 @@ func replayMain(file string) {
 	tmp, err := os.MkdirTemp("", "c17-replay-")
 	must(err)
 	w := newWorld(kindByName(doc.Replay.Mount), tmp, doc.Replay.Cross, provByName(doc.Replay.Prov), !doc.Replay.Base)
+	if w.kind == kDeriv {
+		w.setDerivation(doc.Replay.Deriv)
+		w.pre, w.derivIdx = uint64(preFD+doc.Replay.Idx), doc.Replay.Idx
+		fmt.Printf("derivation %s, mount %d under test; model: %v\n", derivString(doc.Replay.Deriv), doc.Replay.Idx, derivModel(doc.Replay.Deriv))
+	}
 	fmt.Printf("replaying %s on mount %s\n", doc.Signature, doc.Replay.Mount)
 	at, _ := replayWord(w, doc.Replay.Word, func(s string) { fmt.Println(s) })
 	bad := at >= 0
-	if len(doc.Replay.Word) == 0 || !bad {
+	if w.kind != kDeriv && (len(doc.Replay.Word) == 0 || !bad) {
 		for _, pc := range readable(w.kind, w.ext) {
 			got, en := w.readThrough(pc[0])
 			fmt.Printf("read %q through the mount -> %s %q\n", pc[0], errName(en), got)
